@@ -3,19 +3,50 @@ import RawPanelVerif.Lemmas.LifecycleInvB
 import RawPanelVerif.Lemmas.LifecycleInvC
 import RawPanelVerif.Lemmas.LifecycleInvE
 import RawPanelVerif.Lemmas.LifecycleInvW
+import RawPanelVerif.Lemmas.LifecycleInvT
 import RawPanelVerif.Lemmas.LifecycleMeasure
+import RawPanelVerif.Lemmas.LifecycleRank
+import RawPanelVerif.Lemmas.LifecycleLive
+import RawPanelVerif.Lemmas.LifecycleFrames
 /-!
 # C11 — connection lifecycle of `ConnectToPanel`: property theorems
 
-Every theorem quantifies over ALL executions of the LTS `Model/Lifecycle.lean` (`Reachable ae s`: any number of
-reconnect cycles, any interleaving of the main loop, every writer goroutine, cancellation, panel drops, frame
-arrivals).  `ae = false` is the pinned wait-group accounting (`wg.Add(1)` inside the goroutine), `ae = true`
-the repaired one (`wg.Add(1)` before `go`).  Unless stated otherwise a theorem holds for both.
+Every theorem quantifies over ALL executions of the LTS `Model/Lifecycle.lean` (`Reachable ae s`: any retry
+periods, any number of reconnect cycles, any interleaving of the main loop, every writer goroutine, cancellation,
+panel drops after any number of bytes, byte arrivals, `msgsToPanel` traffic, a pausing consumer, the clock).
+`ae = false` is the pinned wait-group accounting (`wg.Add(1)` inside the goroutine), `ae = true` the repaired one
+(`wg.Add(1)` before `go`).  Unless stated otherwise a theorem holds for both.
+
+Sections: (1) callbacks, (2) deliveries and drop offsets, (3) retry periods on the clock, (4) sockets, writers and the
+wait group, (5) return after cancellation, (6) reconnect after a loss, (7) the writer's data path, (8) non-vacuity.
+Declared assumptions that show up as hypotheses or as "waiting" states: `net.Dial` answers (no dial timeout in the code;
+its duration is the environment's); someone receives from `msgsFromPanel`; a panel that stays connected takes the bytes
+written to it; the clock advances.
+
+Observations outside the property's domain (behaviour of the UNCHANGED tree, decided to be assumptions, kept out of the
+generator; each has its counterexample theorem in section 5):
+* (A) consumer not receiving: `msgsFromPanel <- …` (connecttopanel.go 206/228) is a bare send, not a `select` with
+  `ctx.Done()`.  Reproduce: binary panel acks the probe and sends two frames, nobody receives from `msgsFromPanel`,
+  `cancel()` → the writer goroutine closes the socket (panel sees RST) but `ConnectToPanel` has not returned 8 s later;
+  it returns the moment one item is received.  Documented precondition (doc comment line 28, comment line 149).
+  `cancel_blocked_while_consumer_stopped`.
+* (B) panel connected but not reading: the writer goroutine sits inside `conn.Write` (line 162/169, no deadline), not in
+  its `select`.  Reproduce: panel acks the probe, keeps the connection, never reads; the application hands over 4 lists
+  of 20 × 60 kB texts (≈ 5 MB fill the loopback buffers), `cancel()` → no return until the panel reads or drops (8 s
+  observed).  Outside the property's panel classes (absent / refusing / accepting-but-silent: all scripted panels read).
+  `cancel_blocked_while_writer_in_write`.
+* (C) traffic on `msgsToPanel` during the NO-connection wait ends that wait at once (61-68): the client re-dials as fast
+  as the application submits; the property promises the retry period only "after panel loss".
+  `traffic_ends_noconn_wait`, `noconn_redial_before_period_with_traffic`.
 -/
 namespace RawPanelVerif.C11
 open RawPanelVerif.Lifecycle
+open RawPanelVerif.Spec.Lifecycle (completeBefore)
 
-/-- connect and disconnect callbacks strictly alternate, starting with connect -/
+/-! ## 1. callbacks -/
+
+/-- connect and disconnect callbacks strictly alternate, starting with connect — also when the reader ends the
+connection itself (`readFault`: in-frame timeout, over-limit header) -/
 theorem callbacks_alternate (ae : Bool) (s : St) (h : Reachable ae s) : alt (cbs s.log) = true :=
   (invA_reachable h).alt
 
@@ -29,33 +60,199 @@ theorem cancelled_disconnect_last_and_only_after_cancel (ae : Bool) (s : St) (h 
     ∧ (∀ b r, s.log = .returned :: .disconnect b :: r → b = true) :=
   ⟨(invA_reachable h).discTrue, (invA_reachable h).once, (invE_reachable h).discFalse, (invE_reachable h).retAfter⟩
 
-/-- deliveries: for every connection the delivery log is exactly frames 0,1,…,delivered-1 in order (each once),
-never more than have completely arrived, nothing is logged for a connection that does not exist; and a
-connection that was left with its exit flag clear (reported as an uncancelled disconnect) was dropped by the
-panel and had delivered every frame that had completely arrived -/
+/-! ## 2. deliveries; every drop offset -/
+
+/-- deliveries: for every connection the delivery log is exactly frames 0,1,…,delivered-1 in order (each once);
+never more than the frames that have COMPLETELY arrived (`arrived` counts completing bytes only: the bytes of a started
+frame never count, in either mode); the frame the reader holds is one of them; nothing is logged for a connection
+that does not exist; and a connection that was left with its exit flag clear (reported as an uncancelled
+disconnect) was lost through the panel or given up by the reader, had delivered every frame that had completely
+arrived and holds nothing back -/
 theorem delivered_before_drop_exactly_once (ae : Bool) (s : St) (h : Reachable ae s) :
     (∀ i c, s.conns[i]? = some c →
         delsOf (s.conns.length - 1 - i) s.log = (List.range c.delivered).reverse
-        ∧ c.delivered ≤ c.arrived
-        ∧ ((i > 0 ∨ (s.phase ≠ .probing ∧ s.phase ≠ .announcing ∧ s.phase ≠ .connected)) → c.exit = false →
-              c.peerClosed = true ∧ c.delivered = c.arrived))
+        ∧ c.delivered + (if c.held then 1 else 0) ≤ c.arrived
+        ∧ ((i > 0 ∨ s.phase.reading = false) → c.exit = false →
+              (c.peerClosed = true ∨ c.fault = true) ∧ c.delivered = c.arrived ∧ c.held = false))
     ∧ (∀ j, j ≥ s.conns.length → delsOf j s.log = []) :=
   ⟨fun i c hc => ⟨(invB_reachable h).dels i c hc, (invC_reachable h i c hc).delLe, (invC_reachable h i c hc).dropped⟩,
    (invB_reachable h).none⟩
 
+/-- EVERY DROP OFFSET, both modes.  Let the panel's stream consist of frames of the byte lengths `lens` (binary:
+header + payload; ASCII: line + LF) and let exactly the first `d` bytes have arrived on a connection (`d` arbitrary:
+at a boundary, inside a header, inside a payload, inside a line; the connection may be binary or ASCII).  Then at no
+time more than the `completeBefore lens d` frames that lie completely before offset `d` have been delivered or taken
+— the partial frame is never delivered —, the delivery log of the connection is an initial segment 0,1,… of them;
+and once the connection has ended uncancelled exactly these frames have been delivered, each once, in order. -/
+theorem drop_at_every_offset (ae : Bool) (s : St) (h : Reachable ae s) (lens : List Nat) (hpos : ∀ n ∈ lens, 0 < n)
+    (d i : Nat) (c : Conn) (hc : s.conns[i]? = some c) (hrx : c.rx = (arrivals lens d).reverse) :
+    c.delivered + (if c.held then 1 else 0) ≤ completeBefore lens d
+    ∧ delsOf (s.conns.length - 1 - i) s.log = (List.range c.delivered).reverse
+    ∧ ((i > 0 ∨ s.phase.reading = false) → c.exit = false →
+        c.delivered = completeBefore lens d ∧ c.held = false
+        ∧ delsOf (s.conns.length - 1 - i) s.log = (List.range (completeBefore lens d)).reverse) := by
+  have harr : c.arrived = completeBefore lens d := by
+    simp [Conn.arrived, hrx, List.count_reverse, count_arrivals lens d hpos]
+  have g := invC_reachable h i c hc
+  have hb := (invB_reachable h).dels i c hc
+  refine ⟨by rw [← harr]; exact g.delLe, hb, fun he hx => ?_⟩
+  have hd := g.dropped he hx
+  exact ⟨by rw [← harr]; exact hd.2.1, hd.2.2, by rw [← harr, ← hd.2.1]; exact hb⟩
+
+/-- the monitor `Spec.Lifecycle.framesIn` (which judges the real client's deliveries on the scripted byte stream, and from
+which the driver derives the arrival flags it feeds to the LTS) counts exactly the frames of `drop_at_every_offset`:
+on a well-formed binary stream (payloads behind 4-byte little-endian headers) resp. ASCII stream (LF-free lines + LF),
+for every prefix length `n`, it equals `completeBefore` of the frame lengths = the number of completing bytes among the
+first `n` arrivals -/
+theorem monitor_counts_the_same_frames (sc : Spec.Lifecycle.Script) (n : Nat) :
+    (∀ ps : List (List Nat), (∀ p ∈ ps, p.length < 4294967296) → sc.mode ≠ .asc → sc.stream = binStream ps →
+        Spec.Lifecycle.framesIn sc n = completeBefore (ps.map (fun p => 4 + p.length)) n
+        ∧ Spec.Lifecycle.framesIn sc n = (arrivals (ps.map (fun p => 4 + p.length)) n).count true)
+    ∧ (∀ ls : List (List Nat), (∀ l ∈ ls, 10 ∉ l) → sc.mode = .asc → sc.stream = ascStream ls →
+        Spec.Lifecycle.framesIn sc n = completeBefore (ls.map (fun l => l.length + 1)) n
+        ∧ Spec.Lifecycle.framesIn sc n = (arrivals (ls.map (fun l => l.length + 1)) n).count true) := by
+  constructor
+  · intro ps hlen hm hst
+    have hpos : ∀ m ∈ ps.map (fun p => 4 + p.length), 0 < m := by
+      intro m hm; simp at hm; obtain ⟨q, _, rfl⟩ := hm; omega
+    have h1 : Spec.Lifecycle.framesIn sc n = completeBefore (ps.map (fun p => 4 + p.length)) n := by
+      have hb := binFramesIn_eq ps (sc.stream.length + 1) n (by rw [hst]; have := length_binStream_ge ps; omega) hlen
+      unfold Spec.Lifecycle.framesIn
+      cases hmo : sc.mode <;> first | exact absurd hmo hm | (simp only []; rw [hst] at hb ⊢; exact hb)
+    exact ⟨h1, by rw [h1, count_arrivals _ n hpos]⟩
+  · intro ls hl hm hst
+    have hpos : ∀ m ∈ ls.map (fun l => l.length + 1), 0 < m := by
+      intro m hm; simp at hm; obtain ⟨q, _, rfl⟩ := hm; omega
+    have h1 : Spec.Lifecycle.framesIn sc n = completeBefore (ls.map (fun l => l.length + 1)) n := by
+      unfold Spec.Lifecycle.framesIn
+      simp only [hm]; rw [hst]; exact ascLinesIn_eq ls n hl
+    exact ⟨h1, by rw [h1, count_arrivals _ n hpos]⟩
+
 /-- the same at the moment of the callback: when `ondisconnect(false)` is called, the panel has dropped the
-connection and every completely arrived frame has been delivered -/
+connection or the reader has given it up, every completely arrived frame has been delivered and none is held -/
 theorem uncancelled_disconnect_after_all_delivered (ae : Bool) (s s' : St) (h : Reachable ae s)
     (hs : step ae s (.onDisconnect false) = some s') :
-    ∃ c rest, s.conns = c :: rest ∧ c.peerClosed = true ∧ c.delivered = c.arrived := by
+    ∃ c rest, s.conns = c :: rest ∧ (c.peerClosed = true ∨ c.fault = true) ∧ c.delivered = c.arrived ∧ c.held = false := by
   obtain ⟨c, rest, hc, hp, hb, _⟩ := step_onDisconnect hs
   have g := invC_reachable h 0 c (by simp [hc])
-  exact ⟨c, rest, hc, g.dropped (Or.inr (by simp [hp])) hb.symm⟩
+  exact ⟨c, rest, hc, g.dropped (Or.inr (by simp [hp, Phase.reading])) hb.symm⟩
 
-/-- a connection is dialled only after the retry sleep that followed the previous disconnect callback -/
+/-- the reader gives a connection up by itself only in binary mode, only inside a started frame (in-frame deadline,
+over-limit header), only after delivering every complete frame, and never while it still serves it -/
+theorem reader_fault_only_binary_midframe (ae : Bool) (s : St) (h : Reachable ae s) (i : Nat) (c : Conn)
+    (hc : s.conns[i]? = some c) (hf : c.fault = true) :
+    c.binary = true ∧ 0 < c.partial ∧ c.delivered = c.arrived ∧ (i > 0 ∨ s.phase.reading = false) :=
+  let g := invC_reachable h i c hc
+  ⟨(g.faultOnly hf).1, (g.faultOnly hf).2.1, (g.faultOnly hf).2.2, g.faultLate hf⟩
+
+/-- ASSUMPTION MADE EXPLICIT: the delivery is a bare channel send.  While nobody receives from `msgsFromPanel` the
+reader can neither deliver nor drop the frame it holds nor read on nor leave the connection: every main-loop
+step is disabled, the frame stays held (the client blocks, it does not drop) -/
+theorem delivery_blocks_without_consumer (ae : Bool) (s : St) (c : Conn) (rest : List Conn) (hp : s.phase = .connected)
+    (hcs : s.conns = c :: rest) (hh : c.held = true) (hco : s.consumer = false) :
+    step ae s .deliver = none ∧ step ae s .takeFrame = none ∧ step ae s .readErr = none ∧ step ae s .readFault = none
+    ∧ (step ae s .consumerResume).bind (fun s1 => step ae s1 .deliver) ≠ none := by
+  refine ⟨by simp [step, hcs, hco], by simp [step, hcs, hh], by simp [step, hcs, hh], by simp [step, hcs, hh], ?_⟩
+  simp [step, hp, hcs, hh]
+
+/-! ## 3. retry periods on the clock -/
+
+/-- a connection is dialled only after the retry sleep that followed the previous disconnect callback (order of events) -/
 theorem reconnect_only_after_retry_sleep (ae : Bool) (s : St) (h : Reachable ae s) :
     dialsOk s.log = true ∧ ((s.phase = .dialing ∨ s.phase = .noConnWait) → sleptSinceDisc s.log = true) :=
   ⟨(invD_reachable h).dials, (invD_reachable h).slept⟩
+
+/-- … and on the clock: every connection in the history was established at least the reconnect retry period `s.rc`
+(the configured `ReConnectionRetryPeriod`, or the default) after EVERY disconnect callback before it, whatever
+happened in between (traffic on `msgsToPanel`, failed dials, cancellation attempts …) -/
+theorem redial_not_before_period (ae : Bool) (s : St) (h : Reachable ae s) (pre post : List (Ev × Nat)) (t : Nat)
+    (hsplit : tl s = pre ++ (.dial, t) :: post) (b : Bool) (t0 : Nat) (hd : (Ev.disconnect b, t0) ∈ post) :
+    t0 + s.rc ≤ t := by
+  have hT := invT_reachable h
+  have hok := hT.ok
+  rw [hsplit] at hok
+  have h1 := redialOk_split s.rc pre post t hok
+  have hs := hT.sorted
+  rw [hsplit] at hs
+  have hs2 : post.Pairwise (fun a b => b.2 ≤ a.2) := (List.pairwise_cons.mp (List.pairwise_append.mp hs).2.1).2
+  obtain ⟨t1, ht1, hle⟩ := lastDisc_ge post hs2 b t0 hd
+  rw [ht1] at h1
+  simp [afterDisc] at h1
+  omega
+
+/-- the same at the moment the sleep ends: `time.Sleep` returns no earlier than the period after the callback -/
+theorem retry_sleep_lasts_the_period (ae : Bool) (s s' : St) (h : Reachable ae s) (hs : step ae s .sleepDone = some s') :
+    ∃ t0, lastDisc (tl s) = some t0 ∧ t0 + s.rc ≤ s.now := by
+  obtain ⟨hp, hw, _⟩ := step_sleepDone hs
+  obtain ⟨t0, h1, h2⟩ := (invT_reachable h).sleeping hp
+  exact ⟨t0, h1, by omega⟩
+
+/-- the retry periods are those of the configuration for the whole call -/
+theorem periods_are_the_configured_ones (ae : Bool) (cfgNc cfgRc : Nat) (ls : List Lbl) (s : St)
+    (hr : run ae (initCfg cfgNc cfgRc) ls = some s) :
+    s.rc = (if cfgRc = 0 then Gen.clientReconnRetryDefaultS else cfgRc) * 1000
+    ∧ s.nc = (if cfgNc = 0 then Gen.clientNoConnRetryDefaultS else cfgNc) * 1000 ∧ 0 < s.nc := by
+  have := run_keeps_cfg ae ls _ s hr
+  refine ⟨this.1, this.2, ?_⟩
+  rw [this.2]
+  simp only [initCfg, initWith, effNc]
+  split <;> simp [Gen.clientNoConnRetryDefaultS] <;> omega
+
+/-- DOCUMENTED BEHAVIOUR (connecttopanel.go 61-68): the no-connection wait ends by its timer, by cancellation — or
+at once by ANY list arriving on `msgsToPanel`, which the main loop drains and discards there; nothing else ends
+it, and nothing re-arms its timer while it lasts -/
+theorem noconn_wait_ends_by_timer_traffic_or_cancel (ae : Bool) (s s' : St) (l : Lbl) (hp : s.phase = .noConnWait)
+    (hs : step ae s l = some s') :
+    (s'.phase = .noConnWait ∧ s'.wake = s.wake)
+    ∨ (l = .noConnTimer ∧ s.wake ≤ s.now ∧ s'.phase = .dialing)
+    ∨ (l = .noConnDrain ∧ 0 < s.offered ∧ s'.phase = .dialing ∧ s'.offered = s.offered - 1)
+    ∨ (l = .ret ∧ s.cancelled = true ∧ s'.phase = .returned) := by
+  cases l with
+  | cancel => have := step_cancel hs; subst this; exact Or.inl ⟨hp, rfl⟩
+  | offer => have := step_offer hs; subst this; exact Or.inl ⟨hp, rfl⟩
+  | consumerStop => have := step_consumerStop hs; subst this; exact Or.inl ⟨hp, rfl⟩
+  | consumerResume => have := step_consumerResume hs; subst this; exact Or.inl ⟨hp, rfl⟩
+  | tick d => have := step_tick hs; subst this; exact Or.inl ⟨hp, rfl⟩
+  | dialFail => obtain ⟨h, _⟩ := step_dialFail hs; simp [hp] at h
+  | noConnTimer => obtain ⟨_, hw, rfl⟩ := step_noConnTimer hs; exact Or.inr (Or.inl ⟨rfl, hw, rfl⟩)
+  | noConnDrain => obtain ⟨_, ho, rfl⟩ := step_noConnDrain hs; exact Or.inr (Or.inr (Or.inl ⟨rfl, ho, rfl, rfl⟩))
+  | peerClose => obtain ⟨c, rest, _, _, rfl⟩ := step_peerClose hs; exact Or.inl ⟨hp, rfl⟩
+  | byteArrive fin => obtain ⟨c, rest, _, h, _, _⟩ := step_byteArrive hs; simp [hp] at h
+  | takeFrame => obtain ⟨c, rest, _, h, _⟩ := step_takeFrame hs; simp [hp] at h
+  | spawnWriter => obtain ⟨c, rest, _, h, _⟩ := step_spawnWriter hs; simp [hp] at h
+  | readErr => obtain ⟨c, rest, _, h, _⟩ := step_readErr hs; simp [hp] at h
+  | readFault => obtain ⟨c, rest, _, h, _⟩ := step_readFault hs; simp [hp] at h
+  | closeQuit => obtain ⟨c, rest, _, h, _⟩ := step_closeQuit hs; simp [hp] at h
+  | connClose => obtain ⟨c, rest, _, h, _⟩ := step_connClose hs; simp [hp] at h
+  | writerStart i => obtain ⟨c, _, _, rfl⟩ := step_writerStart hs; exact Or.inl ⟨hp, rfl⟩
+  | writerSeesCancel i => obtain ⟨c, _, _, _, rfl⟩ := step_writerSeesCancel hs; exact Or.inl ⟨hp, rfl⟩
+  | writerSeesQuit i => obtain ⟨c, _, _, _, rfl⟩ := step_writerSeesQuit hs; exact Or.inl ⟨hp, rfl⟩
+  | writerTake i => obtain ⟨c, _, _, _, rfl⟩ := step_writerTake hs; exact Or.inl ⟨hp, rfl⟩
+  | writeDone i => obtain ⟨c, _, _, _, rfl⟩ := step_writeDone hs; exact Or.inl ⟨hp, rfl⟩
+  | writeErr i => obtain ⟨c, _, _, _, rfl⟩ := step_writeErr hs; exact Or.inl ⟨hp, rfl⟩
+  | onConnect => obtain ⟨h, _⟩ := step_onConnect hs; simp [hp] at h
+  | deliver => obtain ⟨c, rest, _, h, _⟩ := step_deliver hs; simp [hp] at h
+  | sleepDone => obtain ⟨h, _⟩ := step_sleepDone hs; simp [hp] at h
+  | ret =>
+    obtain ⟨h, rfl⟩ := step_ret hs
+    rcases h with h | ⟨_, hc⟩
+    · simp [hp] at h
+    · exact Or.inr (Or.inr (Or.inr ⟨rfl, hc, rfl⟩))
+  | dialOk bin => obtain ⟨h, _⟩ := step_dialOk hs; simp [hp] at h
+  | onDisconnect b => obtain ⟨c, rest, _, h, _⟩ := step_onDisconnect hs; simp [hp] at h
+
+/-- traffic on `msgsToPanel` during the no-connection wait ends the wait at once, whatever the timer says -/
+theorem traffic_ends_noconn_wait (ae : Bool) (s : St) (hp : s.phase = .noConnWait) (ho : 0 < s.offered) :
+    step ae s .noConnDrain = some { s with phase := .dialing, offered := s.offered - 1 } := by
+  simp [step, hp, ho]
+
+/-- hence the NO-connection period is NOT a lower bound between two dials (the property text promises the period
+only "after panel loss"): panel absent, a list is offered, the client dials again at the same instant -/
+theorem noconn_redial_before_period_with_traffic :
+    (run true init [.dialFail, .offer, .noConnDrain]).map (fun s => decide (s.phase = .dialing ∧ s.now = 0 ∧ s.nc = 3000))
+      = some true := by decide
+
+/-! ## 4. sockets, writer goroutines, wait group -/
 
 /-- every socket the call opened is closed once it has returned (both variants) -/
 theorem return_implies_all_sockets_closed (ae : Bool) (s : St) (h : Reachable ae s) (hr : s.phase = .returned) :
@@ -66,14 +263,16 @@ theorem return_implies_all_sockets_closed (ae : Bool) (s : St) (h : Reachable ae
 
 /-- a connection that is no longer the current one (the client has dialled again since): its quit channel has been
 closed and its socket has been closed by the client, so its writer goroutine — if it still runs — has its stop
-signal pending (`writerSeesQuit` is enabled) in every reachable state; no execution leaves the writer of an earlier
-connection running without having been told to stop (both variants) -/
+signal pending (`writerSeesQuit` is enabled), and if it sits in `conn.Write` that call fails and brings it back to
+its `select` (`writeErr` is enabled), in every reachable state (both variants) -/
 theorem earlier_connection_writer_told_to_quit (ae : Bool) (s : St) (h : Reachable ae s) (i : Nat) (c : Conn)
     (hi : i > 0) (hc : s.conns[i]? = some c) :
-    c.quit = true ∧ c.closed = true ∧ (c.w = .running → (step ae s (.writerSeesQuit i)).isSome = true) := by
+    c.quit = true ∧ c.closed = true ∧ (c.w = .running → (step ae s (.writerSeesQuit i)).isSome = true)
+    ∧ (c.w = .writing → (step ae s (.writeErr i)).isSome = true) := by
   have g := (invC_reachable h i c hc).done (Or.inl hi)
-  refine ⟨g.2, g.1, fun hw => ?_⟩
-  simp [step, hc, hw, g.2]
+  refine ⟨g.2, g.1, fun hw => ?_, fun hw => ?_⟩
+  · simp [step, hc, hw, g.2]
+  · simp [step, hc, hw, g.1]
 
 /-- the wait-group counter never goes negative (no `sync: negative WaitGroup counter` panic), both variants -/
 theorem wg_nonneg (ae : Bool) (s : St) (h : Reachable ae s) : 0 ≤ s.wg := by
@@ -99,19 +298,20 @@ theorem return_implies_all_writers_exited (s : St) (h : Reachable true s) (hr : 
   | unborn => have := g.unbornIff.mp hcw; simp [hr] at this
   | spawned => simp [weight, hcw] at hz
   | running => simp [weight, hcw] at hz
+  | writing => simp [weight, hcw] at hz
   | exited => rfl
 
-/-- … and before that, while a writer goroutine is still alive, the counter of the repaired variant is positive:
-`wg.Wait()` cannot return early -/
+/-- … and before that, while a writer goroutine is still alive (also inside `conn.Write`), the counter of the
+repaired variant is positive: `wg.Wait()` cannot return early -/
 theorem repaired_wait_blocks_while_writer_alive (s : St) (h : Reachable true s) (c : Conn) (hc : c ∈ s.conns)
-    (hw : c.w = .spawned ∨ c.w = .running) : 0 < s.wg := by
+    (hw : c.w = .spawned ∨ c.w = .running ∨ c.w = .writing) : 0 < s.wg := by
   have hW := invW_reachable h
   unfold InvW at hW
   have h2 : 0 ≤ base s.phase := by cases s.phase <;> simp [base]
   have h3 : 0 < pendingW true s.conns := by
     by_cases h0 : pendingW true s.conns = 0
     · have := pendingW_zero true s.conns h0 c hc
-      rcases hw with hw | hw <;> simp [weight, hw] at this
+      rcases hw with hw | hw | hw <;> simp [weight, hw] at this
     · have := pendingW_nonneg true s.conns; omega
   omega
 
@@ -121,9 +321,9 @@ the connection; retry sleep; connection 2; its writer starts; cancel; teardown; 
 the counter is 0 (so `wg.Wait()` returns), the writer goroutine of connection 1 has not finished — and its
 `wg.Add(1)` is still to come. -/
 def lateAddTrace : List Lbl :=
-  [.dialOk, .spawnWriter, .onConnect, .peerClose, .readErr, .closeQuit, .connClose, .onDisconnect false, .sleepDone,
-   .dialOk, .spawnWriter, .writerStart 0, .onConnect, .cancel, .writerSeesCancel 0, .readErr, .closeQuit, .connClose,
-   .onDisconnect true, .ret]
+  [.dialOk true, .spawnWriter, .onConnect, .peerClose, .readErr, .closeQuit, .connClose, .onDisconnect false, .tick 1000,
+   .sleepDone, .dialOk true, .spawnWriter, .writerStart 0, .onConnect, .cancel, .writerSeesCancel 0, .readErr, .closeQuit,
+   .connClose, .onDisconnect true, .ret]
 
 /-- returned ∧ wg = 0 ∧ some writer goroutine not exited -/
 def drainedWithLiveWriter (s : St) : Bool :=
@@ -139,59 +339,284 @@ theorem late_wg_add_raises_drained_counter :
 /-- the same execution under the repaired accounting: the counter is still 1 at return -/
 theorem late_wg_add_repaired_on_trace : (run true init lateAddTrace).map (fun s => decide (s.wg = 1)) = some true := by decide
 
-/-- after the return every remaining writer goroutine can finish (its `quit` channel is closed): the wait group
-does drain -/
+/-- after the return every remaining writer goroutine can take a step of its own (it starts, sees its closed `quit`
+channel, or its `conn.Write` fails on the closed socket) -/
 theorem after_return_writers_can_finish (ae : Bool) (s : St) (h : Reachable ae s) (hr : s.phase = .returned)
     (i : Nat) (c : Conn) (hc : s.conns[i]? = some c) (hw : c.w ≠ .exited) :
-    (step ae s (.writerStart i)).isSome = true ∨ (step ae s (.writerSeesQuit i)).isSome = true := by
+    (step ae s (.writerStart i)).isSome = true ∨ (step ae s (.writerSeesQuit i)).isSome = true
+    ∨ (step ae s (.writeErr i)).isSome = true := by
   have g := invC_reachable h i c hc
-  have hq := (g.done (Or.inr (by simp [hr, Phase.serving]))).2
+  have hq := g.done (Or.inr (by simp [hr, Phase.serving]))
   cases hcw : c.w with
   | unborn => have := g.unbornIff.mp hcw; simp [hr] at this
   | spawned => exact Or.inl (by simp [step, hc, hcw])
-  | running => exact Or.inr (by simp [step, hc, hcw, hq])
+  | running => exact Or.inr (Or.inl (by simp [step, hc, hcw, hq.2]))
+  | writing => exact Or.inr (Or.inr (by simp [step, hc, hcw, hq.1]))
   | exited => exact absurd hcw hw
 
-/-- bounded return: a program-only execution (no step of the environment) from any state has at most `measure s`
-steps; and once cancelled, the program can only come to rest when the call has returned or it is waiting for the
-result of `net.Dial` (an environment step) — so from `cancel` on, between any two environment steps, the client
-makes a bounded number of steps and keeps moving until it has returned -/
+/-- THE WAIT GROUP DRAINS (inevitably, no environment step needed): from every reachable state in which the call has
+returned, every program-only run is finite (at most `measure s` steps), and every MAXIMAL one — one that ends in a
+state where no program step is enabled — ends with every writer goroutine finished, every socket closed and the
+counter at 0.  Both accountings (the pinned one is wrong only transiently, see `late_wg_add_counterexample`). -/
+theorem wg_drains (ae : Bool) (s : St) (h : Reachable ae s) (hr : s.phase = .returned) (ls : List Lbl) (s' : St)
+    (hp : ∀ l ∈ ls, l.isProgram = true) (hrun : run ae s ls = some s') :
+    ls.length ≤ measure s
+    ∧ ((∀ l, l.isProgram = true → step ae s' l = none) →
+        s'.wg = 0 ∧ (∀ c ∈ s'.conns, c.w = .exited ∧ c.closed = true)) := by
+  refine ⟨by have := program_run_bounded ae ls s s' h hp hrun; omega, fun hmax => ?_⟩
+  have hR' := reachable_of_run ae ls s s' h hrun
+  have hr' := returned_run ae ls s s' hrun hr
+  have hC := invC_reachable hR'
+  have hall : ∀ c ∈ s'.conns, c.w = .exited := by
+    intro c hc
+    obtain ⟨i, hi⟩ := List.getElem?_of_mem hc
+    cases hcw : c.w with
+    | exited => rfl
+    | _ =>
+      obtain ⟨l, hl, he⟩ := writer_can_move_after_return ae s' hC hr' i c hi (by simp [hcw])
+      rw [hmax l hl] at he; simp at he
+  have hW := invW_reachable hR'
+  unfold InvW at hW
+  rw [pendingW_all_exited ae s'.conns hall, hr'] at hW
+  exact ⟨by simpa [base] using hW,
+    fun c hc => ⟨hall c hc, return_implies_all_sockets_closed ae s' hR' hr' c hc⟩⟩
+
+/-! ## 5. return after cancellation -/
+
+/-- bounded return, part 1: a program-only execution (no step of the environment) from any reachable state has at
+most `measure s` steps; and once cancelled, the program can only come to rest when the call has returned or it is in
+one of the four `Waiting` states: `net.Dial` pending (assumption: it answers), the retry sleep not over (bounded by the
+period), the reader in `msgsFromPanel <-` with nobody receiving (assumption: the consumer reads), the writer of the
+current connection inside `conn.Write` on a socket open at both ends (assumption: a connected panel reads) -/
 theorem bounded_return (ae : Bool) (s : St) (h : Reachable ae s) :
     (∀ ls s', (∀ l ∈ ls, l.isProgram = true) → run ae s ls = some s' → ls.length ≤ measure s)
-    ∧ (s.cancelled = true → s.phase ≠ .returned → s.phase ≠ .dialing →
-        ∃ l, l.isProgram = true ∧ (step ae s l).isSome = true) := by
-  refine ⟨fun ls s' hp hr => ?_, fun hc h1 h2 => cancelled_progress ae s (invA_reachable h) (invC_reachable h) hc ⟨h1, h2⟩⟩
-  have := program_run_bounded ae ls s s' hp hr
+    ∧ (s.cancelled = true → s.phase ≠ .returned →
+        (∃ l, l.isProgram = true ∧ (step ae s l).isSome = true) ∨ Waiting s) := by
+  refine ⟨fun ls s' hp hr => ?_, fun hc h1 => cancelled_progress ae s (invA_reachable h) (invC_reachable h) hc h1⟩
+  have := program_run_bounded ae ls s s' h hp hr
   omega
 
-/-! ## non-vacuity: reachable non-trivial states satisfying the hypotheses -/
+/-- bounded return, part 2 (including the `dialing` state, the sleep and both blocking assumptions).  From a
+cancelled reachable state, along ANY run in which the environment does not disturb (no new panel drop, no new byte,
+no new `msgsToPanel` list, the consumer does not stop, no clock tick between a failed dial and the evaluation of the
+`select` behind it), at most `crank s` helpful steps happen — program steps and the awaited environment steps (dial
+result, time during the retry sleep, the consumer receiving, a write being taken); the run stays cancelled; and as
+long as the call has not returned a helpful step is enabled.  So every such run that keeps taking helpful steps
+reaches `returned` within `crank s` of them.  `crank s` is explicit: it contains the remaining sleep time
+`wake - now ≤ rc`, at most one further connection cycle (rc + 14) when the current connection can still end
+uncancelled, 14 per undelivered `msgsToPanel` list, 2 per undelivered frame, the writer goroutines. -/
+theorem return_after_cancel (ae : Bool) (s : St) (h : Reachable ae s) (hnc : 0 < s.nc) (hcan : s.cancelled = true)
+    (ls : List Lbl) (s' : St) (hrun : run ae s ls = some s') (hu : undisturbed ae s ls = true) :
+    helpfulCount ae s ls + crank s' ≤ crank s
+    ∧ s'.cancelled = true
+    ∧ (s'.phase ≠ .returned → ∃ l, helpful s' l = true ∧ (step ae s' l).isSome = true) := by
+  have hR' := reachable_of_run ae ls s s' h hrun
+  have hc' := cancelled_run ae ls s s' hrun hcan
+  exact ⟨undisturbed_run_bounded ae ls s s' h hnc hrun hu, hc',
+    fun hne => cancelled_helpful_enabled ae s' (invA_reachable hR') (invC_reachable hR') hc' hne⟩
+
+/-- the first blocking assumption is necessary: a reachable, cancelled, not returned state in which NO program step
+is enabled — the reader holds a frame and nobody receives from `msgsFromPanel`; the writer goroutine has already
+closed the socket (observed on the real client: it does not return until the consumer receives) -/
+def blockedOnConsumer : St :=
+  { phase := .connected, cancelled := true, wg := 1, consumer := false, log := [.connect, .dial], stamps := [0, 0],
+    conns := [{ w := .exited, exit := true, closed := true, rx := [true], held := true }] }
+
+theorem cancel_blocked_while_consumer_stopped :
+    run true init [.dialOk true, .spawnWriter, .writerStart 0, .onConnect, .consumerStop, .byteArrive true, .takeFrame,
+      .cancel, .writerSeesCancel 0] = some blockedOnConsumer
+    ∧ ∀ l, l.isProgram = true → step true blockedOnConsumer l = none := by
+  refine ⟨by decide, fun l hl => ?_⟩
+  cases l <;> simp [Lbl.isProgram, Lbl.isEnv] at hl <;> first | (rename_i i; cases i <;> simp [step, blockedOnConsumer]) | simp [step, blockedOnConsumer]
+
+/-- … and so is the second: the writer of the current connection is inside `conn.Write` (panel connected, not
+reading), the reader is in `Read`: cancellation reaches nobody -/
+def blockedInWrite : St :=
+  { phase := .connected, cancelled := true, wg := 2, log := [.connect, .dial], stamps := [0, 0],
+    conns := [{ w := .writing }] }
+
+theorem cancel_blocked_while_writer_in_write :
+    run true init [.dialOk true, .spawnWriter, .writerStart 0, .onConnect, .offer, .writerTake 0, .cancel] = some blockedInWrite
+    ∧ ∀ l, l.isProgram = true → step true blockedInWrite l = none := by
+  refine ⟨by decide, fun l hl => ?_⟩
+  cases l <;> simp [Lbl.isProgram, Lbl.isEnv] at hl <;>
+    first | (rename_i i; cases i <;> simp [step, blockedInWrite]) | simp [step, blockedInWrite, Conn.arrived, Conn.partial, partialOf]
+
+/-! ## 6. cycles and reconnection -/
+
+/-- the number of connect callbacks (= connect/disconnect cycles begun) is at most the number of connections, and that
+is at most 1 + the number of connections lost through a panel drop or a reader fault: without a loss there is no
+second cycle (failed dials open no connection) -/
+theorem extra_cycles_need_drops (ae : Bool) (s : St) (h : Reachable ae s) :
+    nConnect s.log ≤ s.conns.length ∧ s.conns.length ≤ 1 + (s.conns.filter Conn.lostFlag).length := by
+  have hN := invN_reachable h
+  unfold InvN at hN
+  exact ⟨by omega, conns_le_losses s (invC_reachable h)⟩
+
+/-- reconnect and resume after a loss, under fairness.  From any reachable state with the retry period configured
+(`0 < nc`): along any undisturbed run at most `crank s` helpful steps happen; and in every reachable state that is
+neither returned nor in the no-connection wait (the panel is back: dials succeed) and not yet connected on a live
+connection, a helpful step other than a failing dial is enabled — the client cannot get stuck between the loss
+and the next connection.  Connected on a live connection, every completely arrived frame is taken and handed over
+as soon as the consumer receives (`delivery_resumes`). -/
+theorem reconnect_after_drop (ae : Bool) (s : St) (h : Reachable ae s) (hnc : 0 < s.nc)
+    (ls : List Lbl) (s' : St) (hrun : run ae s ls = some s') (hu : undisturbed ae s ls = true) :
+    helpfulCount ae s ls + crank s' ≤ crank s
+    ∧ (s'.phase ≠ .returned → s'.phase ≠ .noConnWait → ¬ liveConn s' →
+        ∃ l, l ≠ .dialFail ∧ helpful s' l = true ∧ (step ae s' l).isSome = true)
+    ∧ (∀ c rest, s'.phase = .connected → s'.conns = c :: rest → c.closed = false → c.delivered < c.arrived →
+        (step ae s' .takeFrame).isSome = true ∨ (c.held = true ∧ (s'.consumer = true → (step ae s' .deliver).isSome = true))) := by
+  have hR' := reachable_of_run ae ls s s' h hrun
+  exact ⟨undisturbed_run_bounded ae ls s s' h hnc hrun hu,
+    fun h1 h2 h3 => reconnect_helpful_enabled ae s' (invA_reachable hR') (invC_reachable hR') h1 h2 h3,
+    fun c rest hp hcs hcl hlt => delivery_resumes ae s' c rest hp hcs hcl hlt⟩
+
+/-! ## 7. the writer's data path -/
+
+/-- a `conn.Write` that fails (socket closed by the client, or panel gone) changes nothing but the writer goroutine
+itself, which is back in its `select`: the main loop / reader, the cancellation flag, the history, the wait group,
+the offered lists and every other connection are untouched (a failed write neither kills the reader nor ends the
+writer; whether it is leaked is `earlier_connection_writer_told_to_quit` / `wg_drains`) -/
+theorem write_failure_harmless (ae : Bool) (s s' : St) (i : Nat) (hs : step ae s (.writeErr i) = some s') :
+    ∃ c, s.conns[i]? = some c ∧ c.w = .writing ∧ s' = { s with conns := s.conns.set i { c with w := .running } }
+      ∧ s'.phase = s.phase ∧ s'.log = s.log ∧ s'.wg = s.wg ∧ s'.cancelled = s.cancelled ∧ s'.offered = s.offered
+      ∧ (∀ j, j ≠ i → s'.conns[j]? = s.conns[j]?) := by
+  obtain ⟨c, hc, hw, _, rfl⟩ := step_writeErr hs
+  refine ⟨c, hc, hw, rfl, rfl, rfl, rfl, rfl, rfl, fun j hj => ?_⟩
+  simp [Ne.symm hj]
+
+/-- a writer goroutine inside `conn.Write` is counted by the wait group and cannot be overlooked at cancellation:
+while it is there the connection's exit flag is clear, and the moment the write returns (`writeDone` / `writeErr`) it is in
+its `select` where, once cancelled, `writerSeesCancel` is enabled -/
+theorem writer_in_write_sees_cancel_after_write (ae : Bool) (s s' : St) (i : Nat) (hcan : s.cancelled = true)
+    (hs : step ae s (.writeErr i) = some s' ∨ step ae s (.writeDone i) = some s') :
+    (step ae s' (.writerSeesCancel i)).isSome = true := by
+  rcases hs with hs | hs
+  · obtain ⟨c, hc, hw, _, rfl⟩ := step_writeErr hs
+    have hi : i < s.conns.length := by
+      rcases Nat.lt_or_ge i s.conns.length with h | h
+      · exact h
+      · rw [List.getElem?_eq_none h] at hc; simp at hc
+    simp [step, hi, hcan]
+  · obtain ⟨c, hc, hw, _, rfl⟩ := step_writeDone hs
+    have hi : i < s.conns.length := by
+      rcases Nat.lt_or_ge i s.conns.length with h | h
+      · exact h
+      · rw [List.getElem?_eq_none h] at hc; simp at hc
+    simp [step, hi, hcan]
+
+/-! ## 8. non-vacuity: reachable non-trivial states satisfying the hypotheses -/
 
 /-- a run with a dropped connection, a reconnect, two deliveries and a cancelled return (repaired accounting) -/
 def demoTrace : List Lbl :=
-  [.dialOk, .spawnWriter, .writerStart 0, .onConnect, .frameComplete, .deliver, .peerClose, .readErr, .closeQuit,
-   .writerSeesQuit 0, .connClose, .onDisconnect false, .sleepDone, .dialOk, .spawnWriter, .writerStart 0, .onConnect,
-   .frameComplete, .deliver, .cancel, .writerSeesCancel 0, .readErr, .closeQuit, .connClose, .onDisconnect true, .ret]
+  [.dialOk true, .spawnWriter, .writerStart 0, .onConnect, .byteArrive false, .byteArrive true, .takeFrame, .deliver, .peerClose,
+   .readErr, .closeQuit, .writerSeesQuit 0, .connClose, .onDisconnect false, .tick 1000, .sleepDone, .dialOk false, .spawnWriter,
+   .writerStart 0, .onConnect, .byteArrive true, .takeFrame, .deliver, .cancel, .writerSeesCancel 0, .readErr, .closeQuit,
+   .connClose, .onDisconnect true, .ret]
 
 example : ∃ s, Reachable true s ∧ s.phase = .returned ∧ s.wg = 0 ∧ s.conns.length = 2 ∧
     cbs s.log = [.disconnect true, .connect, .disconnect false, .connect] ∧ s.cancelled = true := by
   have hrun : (run true init demoTrace).isSome = true := by decide
   obtain ⟨s, hs⟩ := Option.isSome_iff_exists.mp hrun
-  refine ⟨s, reachable_of_run true demoTrace init s Reachable.init hs, ?_⟩
+  refine ⟨s, reachable_of_run true demoTrace init s (reachable_init true) hs, ?_⟩
   have : (run true init demoTrace).map (fun s => decide (s.phase = .returned ∧ s.wg = 0 ∧ s.conns.length = 2 ∧
       cbs s.log = [.disconnect true, .connect, .disconnect false, .connect] ∧ s.cancelled = true)) = some true := by decide
   rw [hs] at this
   simpa using this
 
+/-- the timed history of that run: the second connection is established exactly one retry period (1000) after the
+uncancelled disconnect — `redial_not_before_period` speaks about such entries -/
+example : (run true init demoTrace).map (fun s => (tl s).filter (fun x => x.1 = .dial ∨ x.1 = .disconnect false))
+    = some [(.dial, 1000), (.disconnect false, 0), (.dial, 0)] := by decide
+
+/-- without the clock advancing the retry sleep does not end -/
+example : run true init [.dialOk true, .spawnWriter, .onConnect, .peerClose, .readErr, .closeQuit, .connClose, .onDisconnect false,
+    .tick 999, .sleepDone] = none := by decide
+
 /-- the pinned counterexample state is reachable (so the negative result is about a reachable state) -/
 example : ∃ s, Reachable false s ∧ drainedWithLiveWriter s = true := by
   have hrun : (run false init lateAddTrace).isSome = true := by decide
   obtain ⟨s, hs⟩ := Option.isSome_iff_exists.mp hrun
-  refine ⟨s, reachable_of_run false lateAddTrace init s Reachable.init hs, ?_⟩
+  refine ⟨s, reachable_of_run false lateAddTrace init s (reachable_init false) hs, ?_⟩
   have := late_wg_add_counterexample
   rw [hs] at this
   simpa using this
 
-/-- the measure of the initial state after one established connection is positive: `bounded_return` bounds something -/
-example : measure init = 0 ∧ (run false init [.dialOk]).map measure = some 11 := by decide
+/-- `drop_at_every_offset` is not vacuous: frames of 6, 4 and 8 bytes, the panel drops after 13 bytes (inside the third
+frame), ASCII connection: exactly the 2 complete frames are delivered, the 3 bytes of the third never -/
+def dropTrace (bin : Bool) : List Lbl :=
+  [.dialOk bin, .spawnWriter, .writerStart 0, .onConnect] ++ (arrivals [6, 4, 8] 13).map .byteArrive
+  ++ [.takeFrame, .deliver, .peerClose, .takeFrame, .deliver, .readErr, .closeQuit, .connClose, .writerSeesQuit 0, .onDisconnect false]
+
+example : completeBefore [6, 4, 8] 13 = 2 ∧ completeBefore [6, 4, 8] 10 = 2 ∧ completeBefore [6, 4, 8] 9 = 1
+    ∧ completeBefore [6, 4, 8] 18 = 3 ∧ completeBefore [6, 4, 8] 0 = 0 := by decide
+
+example : ∀ bin : Bool, (run true init (dropTrace bin)).map (fun s => s.conns.map (fun c =>
+      (decide (c.rx = (arrivals [6, 4, 8] 13).reverse), c.delivered, c.partial, c.exit, s.phase)))
+    = some [(true, 2, 3, false, .retrySleep)] := by
+  intro bin; cases bin <;> decide
+
+/-- `monitor_counts_the_same_frames` on the harness's kind of stream: three binary frames (payloads of 2, 0, 4 bytes), prefix 13 -/
+example : Spec.Lifecycle.framesIn { mode := .bin, stream := binStream [[8, 1], [], [1, 2, 3, 4]] } 13 = 2
+    ∧ Spec.Lifecycle.framesIn { mode := .asc, stream := ascStream [[72, 87], [67]] } 4 = 1 := by decide
+
+/-- … and in binary mode the reader may instead give the connection up inside the third frame (in-frame deadline):
+still exactly 2 deliveries, an uncancelled disconnect, callbacks alternate -/
+example : (run true init ([.dialOk true, .spawnWriter, .writerStart 0, .onConnect] ++ (arrivals [6, 4, 8] 13).map .byteArrive
+      ++ [.takeFrame, .deliver, .takeFrame, .deliver, .readFault, .closeQuit, .connClose, .writerSeesQuit 0, .onDisconnect false])).map
+      (fun s => (s.conns.map (fun c => (c.fault, c.delivered, c.peerClosed)), cbs s.log, s.phase))
+    = some ([(true, 2, false)], [.disconnect false, .connect], .retrySleep) := by decide
+
+/-- an ASCII connection has no in-frame deadline: `readFault` is never enabled there -/
+example : run true init ([.dialOk false, .spawnWriter, .writerStart 0, .onConnect, .byteArrive false, .readFault]) = none := by decide
+
+/-- the measures bound something: one established connection -/
+example : measure init = 0 ∧ (run false init [.dialOk true]).map measure = some 13
+    ∧ (run true init [.dialOk true, .spawnWriter, .onConnect, .peerClose, .cancel]).map crank = some 1023 := by decide
+
+/-- `return_after_cancel` is not vacuous: cancelled during the retry sleep, the undisturbed helpful run
+tick, sleepDone, dialFail, ret reaches `returned` -/
+example : (run true init [.dialOk true, .spawnWriter, .writerStart 0, .onConnect, .peerClose, .readErr, .closeQuit, .writerSeesQuit 0,
+      .connClose, .onDisconnect false, .cancel]).bind (fun s =>
+        (run true s [.tick 1000, .sleepDone, .dialFail, .ret]).map (fun s' =>
+          (undisturbed true s [.tick 1000, .sleepDone, .dialFail, .ret], helpfulCount true s [.tick 1000, .sleepDone, .dialFail, .ret],
+           crank s, crank s', s'.phase))) = some (true, 4, 1016, 1, .returned) := by decide
+
+/-- `wg_drains` is not vacuous: after `lateAddTrace` (pinned accounting) the maximal program-only run
+writerStart 1, writerSeesQuit 1 ends with the counter at 0 and everybody exited -/
+example : (run false init (lateAddTrace ++ [.writerStart 1, .writerSeesQuit 1])).map
+    (fun s => (s.wg, s.conns.map (·.w), s.phase)) = some (0, [.exited, .exited], .returned) := by decide
+
+/-- `extra_cycles_need_drops`: two connections, one of them lost -/
+example : (run true init demoTrace).map (fun s => (nConnect s.log, s.conns.length, (s.conns.filter Conn.lostFlag).length))
+    = some (2, 2, 1) := by decide
+
+/-- a failed write on the connection the panel has left: the writer is back in its select, the reader untouched -/
+example : (run true init [.dialOk true, .spawnWriter, .writerStart 0, .onConnect, .offer, .writerTake 0, .peerClose, .writeErr 0]).map
+    (fun s => (s.conns.map (·.w), s.phase, s.offered)) = some ([.running], .connected, 0) := by decide
+
+/-- `delivery_blocks_without_consumer` speaks about a reachable state (`blockedOnConsumer`), and once the consumer receives
+the held frame is handed over -/
+example : blockedOnConsumer.phase = .connected ∧ blockedOnConsumer.consumer = false
+    ∧ blockedOnConsumer.conns.map (·.held) = [true]
+    ∧ (run true blockedOnConsumer [.consumerResume, .deliver, .readErr, .closeQuit, .connClose, .onDisconnect true, .ret]).map
+        (fun s => (s.phase, s.conns.map (·.delivered), s.wg)) = some (.returned, [1], 0) := by decide
+
+/-- `periods_are_the_configured_ones`: config {NoConnectionRetryPeriod: 2} and the default reconnection period -/
+example : (run true (initCfg 2 0) [.dialFail]).map (fun s => (s.nc, s.rc, s.wake)) = some (2000, 1000, 2000) := by decide
+
+/-- `reconnect_after_drop` is not vacuous: the panel drops an idle connection; the undisturbed helpful run below (10 helpful
+steps ≤ crank = 1021) ends connected on a new, live connection -/
+def reconnectRun : List Lbl :=
+  [.readErr, .closeQuit, .writerSeesQuit 0, .connClose, .onDisconnect false, .tick 1000, .sleepDone, .dialOk true, .spawnWriter, .onConnect]
+
+example : (run true init [.dialOk true, .spawnWriter, .writerStart 0, .onConnect, .peerClose]).bind (fun s =>
+      (run true s reconnectRun).map (fun s' => decide (undisturbed true s reconnectRun = true ∧ helpfulCount true s reconnectRun = 10
+        ∧ crank s = 1021 ∧ s'.phase = .connected ∧ s'.conns.map (fun c => (c.peerClosed, c.closed)) = [(false, false), (true, true)])))
+    = some true := by decide
+
+/-- `writer_in_write_sees_cancel_after_write`: the state `blockedInWrite`, the panel takes the bytes, the writer sees the cancel -/
+example : (run true blockedInWrite [.writeDone 0, .writerSeesCancel 0, .readErr, .closeQuit, .connClose, .onDisconnect true, .ret]).map
+    (fun s => (s.phase, s.wg)) = some (.returned, 0) := by decide
 
 end RawPanelVerif.C11
